@@ -1,5 +1,5 @@
 (* ListSynFacts.v — C05: get_list (list_to_string l) = l, for every list of strings. *)
-From Molt Require Import Model.Base Model.Tokenizer Model.ListSyn.
+From Molt Require Import Model.Base Model.Tokenizer Model.ListSyn Proofs.BaseFacts.
 From Coq Require Import Lia ZifyBool ZifyN.
 
 Arguments N.eqb : simpl never.
@@ -64,7 +64,7 @@ Proof.
   - destruct w; [|cbn in Hn; lia].
     cbn in Hs. apply Nat.eqb_eq in Hs. subst d. cbn [app pbi].
     change (c_rbrace =? c_bslash) with false. change (c_rbrace =? c_lbrace) with false.
-    change (c_rbrace =? c_rbrace) with true. cbn iota.
+    change (c_rbrace =? c_rbrace) with true. cbn iota. rewrite !rev_fast_eq.
     rewrite app_nil_r. destruct rest as [|x rest']; [reflexivity|]. cbn in Hr. rewrite Hr. reflexivity.
   - destruct w as [|c r].
     + apply (IH [] d acc rest); [cbn; lia|assumption|assumption].
@@ -150,7 +150,7 @@ Lemma pbare_escaped : forall w fuel acc rest,
   pbare fuel (escape_chars w ++ rest) acc = (rev acc ++ w, rest).
 Proof.
   induction w as [|c r IH]; intros fuel acc rest Hf Hr.
-  - destruct fuel as [|f]; [cbn in Hf; lia|]. cbn [escape_chars app pbare]. rewrite app_nil_r.
+  - destruct fuel as [|f]; [cbn in Hf; lia|]. cbn [escape_chars app pbare]. rewrite !rev_fast_eq, app_nil_r.
     destruct rest as [|x rest']; [reflexivity|]. cbn in Hr. rewrite Hr. reflexivity.
   - destruct fuel as [|f]; [cbn in Hf; lia|].
     assert (Hf' : (length r < f)%nat) by (cbn in Hf; lia).
@@ -355,7 +355,7 @@ Lemma parse_list_roundtrip : forall l hash fuel acc,
   parse_list fuel (join_str [c_space] (format_items hash l)) acc = Some (inr (rev acc ++ l)).
 Proof.
   induction l as [|w r IH]; intros hash fuel acc Hf Hh.
-  - destruct fuel; [cbn in Hf; lia|]. cbn. rewrite app_nil_r. reflexivity.
+  - destruct fuel; [cbn in Hf; lia|]. cbn. rewrite rev_fast_eq, app_nil_r. reflexivity.
   - destruct fuel as [|f]; [cbn in Hf; lia|].
     rewrite format_items_cons. cbn [list_hash_ok] in Hh.
     destruct (fmt_item_head hash w Hh) as (c & t & Hx & Hc).
@@ -364,7 +364,7 @@ Proof.
       rewrite Hx. cbn [skip_while]. rewrite Hc. rewrite <- Hx.
       rewrite <- (app_nil_r (fmt_item hash w)).
       rewrite item_roundtrip; [|assumption|exact I].
-      destruct f; [cbn in Hf; lia|]. cbn. reflexivity.
+      destruct f; [cbn in Hf; lia|]. cbn [parse_list skip_while]. rewrite rev_fast_eq. reflexivity.
     + assert (Hj : join_str [c_space] (fmt_item hash w :: format_items false (w' :: r'))
                    = fmt_item hash w ++ c_space :: join_str [c_space] (format_items false (w' :: r'))).
       { rewrite (format_items_cons false w' r'). reflexivity. }
